@@ -396,8 +396,22 @@ class Exec(HeapMixin, SpecEvalMixin, ExprMixin, StmtMixin, CallMixin):
     def frame_obligations(self, fin: State, entry: State, c: Contract, params):
         """Nothing outside `modifies` changed: pointwise on an arbitrary pre-existing object."""
         env = SpecEnv(entry, dict(params))
+        self._frame_check(fin, env, list(c.modifies) + list(c.ghost_modifies), self.initial_heap.get, entry.alloc,
+                          "frame", "unchanged-outside-modifies")
+
+    def loop_frame_obligations(self, end: State, head: State, ls, env):
+        """One iteration of a loop body changes nothing outside the loop's `modifies` (relative to the state at the head of
+        that iteration, for an arbitrary object that existed then).  Without this, a body that writes a location the loop
+        spec does not list would be analysed with the pre-loop value of that location at every loop head."""
+        def base(key):
+            t = head.heap.get(key)
+            return t if t is not None else self.initial_heap.get(key)
+        self._frame_check(end, env, list(ls.modifies), base, head.alloc, "loopframe",
+                          f"loop{ls.ordinal}-body-writes-only-what-the-loop-spec-lists")
+
+    def _frame_check(self, fin: State, env, locs, base_of, alloc_bound, kind_, label_):
         permitted = {}      # heap key -> list of obj terms, or None for 'whole field'
-        for loc in list(c.modifies) + list(c.ghost_modifies):
+        for loc in locs:
             for item in self.parse_location(env, loc):
                 kind = item[0]
                 if kind == "seq*":
@@ -432,6 +446,10 @@ class Exec(HeapMixin, SpecEvalMixin, ExprMixin, StmtMixin, CallMixin):
                     if permitted.get(key, []) is not None:
                         permitted.setdefault(key, []).append(
                             item[1].t if item[3] is None else Ite(item[3], item[1].t, I(0)))
+                elif kind == "set":
+                    key = f"$set${elem_sort(item[1].elem)}"
+                    if permitted.get(key, []) is not None:
+                        permitted.setdefault(key, []).append(item[1].t)
                 elif kind == "dict":
                     ks, dom, vals = self._dict_keys(item[1])
                     for key in [dom] + [v[0] for v in vals]:
@@ -441,7 +459,7 @@ class Exec(HeapMixin, SpecEvalMixin, ExprMixin, StmtMixin, CallMixin):
         o = None
         goals = []
         for key, final in fin.heap.items():
-            init = self.initial_heap.get(key)
+            init = base_of(key)
             if init is None or final.s == init.s:
                 continue
             if key == "$type":
@@ -450,12 +468,12 @@ class Exec(HeapMixin, SpecEvalMixin, ExprMixin, StmtMixin, CallMixin):
             if perm is None:
                 continue
             if o is None:
-                o = self.frame_witness()
-            cond = And(Lt(I(0), o), Lt(o, entry.alloc), *[Ne(o, p) for p in perm])
+                o = self.frame_witness() if kind_ == "frame" else self.decls.fresh("loopframe_obj", INT)
+            cond = And(Lt(I(0), o), Lt(o, alloc_bound), *[Ne(o, p) for p in perm])
             goals.append((key, Implies(cond, Eq(select(final, o), select(init, o)))))
         if goals and os.environ.get("VERIF_FRAME_SPLIT"):
             for k_, g_ in goals:          # development aid: one obligation per heap key
-                self.oblige(fin, g_, "frame", "unchanged-outside-modifies:" + k_, meta={"keys": [k_]})
+                self.oblige(fin, g_, kind_, label_ + ":" + k_, meta={"keys": [k_]})
         elif goals:
-            self.oblige(fin, And(*[g for _, g in goals]), "frame", "unchanged-outside-modifies",
+            self.oblige(fin, And(*[g for _, g in goals]), kind_, label_,
                         meta={"keys": [k for k, _ in goals]})
